@@ -297,7 +297,7 @@ func (p *Path) convert(i *ssa.Convert) (Val, bool) {
 		h := p.heap(env.memHeap(types.Typ[types.Uint8]))
 		p.usedMem = true
 		p.assume(fmt.Sprintf("(= (slen %s) (sl.len %s))", s, x.T))
-		p.assume(fmt.Sprintf("(forall ((i Int)) (! (=> (and (<= 0 i) (< i (sl.len %s))) (= (sat %s i) (select %s (idx (sl.arr %s) (+ (sl.off %s) i))))) :pattern ((sat %s i))))", x.T, s, h, x.T, x.T, s))
+		p.assume(fmt.Sprintf("(forall ((i Int)) (! (=> (and (<= 0 i) (< i (sl.len %s))) (= (sat %s i) (select %s (eaddr %s i)))) :pattern ((sat %s i))))", x.T, s, h, x.T, s))
 		return Val{T: s, Ty: to}, true
 	case fs == "Int" && ts == "Str":
 		f := env.uf("str_of_rune", []string{"Int"}, "Str")
@@ -495,6 +495,16 @@ func (p *Path) appendOp(i ssa.Instruction, s, t Val, resTy types.Type) Val {
 		}
 		fmt.Fprintf(&sb, "(select %s a)%s) :pattern ((select %s a))))", old, closers, nh)
 		p.assume(sb.String())
+		// derived lemma (a consequence of the axiom above, stated over eaddr terms so that quantified facts about the
+		// elements of s, whose patterns mention (eaddr s k), are found for the elements of the result): the first
+		// len(s) elements of the result are the elements of s
+		if b, isB := elem.Underlying().(*types.Basic); isB && b.Kind() == types.Uint8 {
+			continue // byte buffers are reasoned about through fold ghosts, not element-wise
+		}
+		for _, c := range byHeap[hn] {
+			p.assume(fmt.Sprintf("(forall ((k Int)) (! (=> (and (<= 0 k) (< k (sl.len %s))) (= (select %s %s) (select %s %s))) :pattern ((select %s %s))))",
+				s.T, nh, c.wrap(elemAddr(r, "k")), old, c.wrap(elemAddr(s.T, "k")), nh, c.wrap(elemAddr(r, "k"))))
+		}
 	}
 	p.lastAppend = &appendInfo{res: r, src: s.T, n: n, fits: fits}
 	return Val{T: r, Ty: resTy}
